@@ -142,6 +142,9 @@ def shard(args):
     mb = menu(c, "bank_code", 0, tier, other_w=rw)
     ma = menu(c, "account_code", 4, tier)
     mr = menu(c, "branch_code", 7, tier)
+    if rw:
+        # an account code as long as branch + account together (a sort code written in front of it)
+        ma = ma + [conforming(c, "branch_code", rw, 7) + conforming(c, "account_code", gen.width(c, "account_code"), 4)]
     for b, a, r in itertools.product(mb, ma, mr):
         vals = {"bank_code": b, "account_code": a, "branch_code": r}
         part.count((country, b, a, r))
